@@ -1,4 +1,4 @@
 CONSTANTS S = 4  Stride = 16  GroupMax = 14  MaxRun = 12
 SPECIFICATION Spec
-INVARIANTS EmitStats ProjectionExact C06_NoPanic C06_Time C01_NoCrossing C02_NonCollapsingExact C04_VerticesAreCentres C04_EdgesNearInput C04_Coverage C18_ExactRegime C05_WellFormed C05_KeepExtends C07_Deterministic C07_InputUntouched C07_RingDirection C07_ReverseFlag C08_LevelLocal C08_SameOutcome C08_KeysRequested
+INVARIANTS EmitStats ProjectionExact C06_NoPanic C06_Time C01_NoCrossing C02_NonCollapsingExact C04_VerticesAreCentres C04_EdgesNearInput C04_Coverage C18_ExactRegime C05_WellFormed C05_KeepExtends C05_CollapsedPartsKept C07_Deterministic C07_InputUntouched C07_RingDirection C07_ReverseFlag C08_LevelLocal C08_SameOutcome C08_KeysRequested
 CHECK_DEADLOCK FALSE
